@@ -432,7 +432,41 @@ func (in *Interp) symToStr(fr *frame, a Value) Str {
 		}
 		return mkStr("false")
 	}
-	panic(engineErr(fmt.Sprintf("symToStr %T", a)))
+	// %v of arrays and slices whose elements are strings, integers or booleans (directly or in interfaces):
+	// "[e0 e1 ...]" -- fmt's rendering; anything else (floats use %g there, pointers print addresses, structs may
+	// have String methods the value does not carry) stays unsupported
+	var elems []Value
+	switch x := a.(type) {
+	case Array:
+		elems = []Value(x)
+	case []Value:
+		elems = x
+	default:
+		panic(engineErr(fmt.Sprintf("symToStr %T", a)))
+	}
+	out := mkStr("[")
+	for i, e := range elems {
+		if i > 0 {
+			out = strConcat(out, mkStr(" "))
+		}
+		if it, isI := e.(Iface); isI {
+			if it.T == nil {
+				out = strConcat(out, mkStr("<nil>"))
+				continue
+			}
+			if _, named := it.T.(*types.Named); named {
+				panic(engineErr("symToStr: element of a named type inside an interface"))
+			}
+			e = it.V
+		}
+		switch e.(type) {
+		case Str, Int, Bool:
+			out = strConcat(out, in.symToStr(fr, e))
+		default:
+			panic(engineErr(fmt.Sprintf("symToStr element %T", e)))
+		}
+	}
+	return strConcat(out, mkStr("]"))
 }
 
 func (in *Interp) ftoa(f Float, bits int) Str {
